@@ -54,7 +54,7 @@ type Case struct {
 	Streams []ops.Hex `json:"streams"` // generated graphics shared by all goroutines
 }
 
-var jobKinds = []string{"render", "transcode", "disassemble", "viewbox", "generate", "resolve", "aspect", "color1", "options", "pathdata", "recorder", "zeroenc", "validate", "keepmeta", "reuseenc", "reuseenc", "manystops", "nestedoption", "logged", "sharedramp"}
+var jobKinds = []string{"render", "transcode", "disassemble", "viewbox", "generate", "resolve", "aspect", "color1", "options", "pathdata", "recorder", "zeroenc", "validate", "keepmeta", "reuseenc", "reuseenc", "manystops", "nestedoption", "logged", "sharedramp", "zerorend"}
 
 // shared state: one palette array read by everybody
 var sharedPalette = func() [64]color.RGBA {
@@ -281,6 +281,27 @@ func runJob(w *worker, j Job, inputs [][]byte) uint64 {
 		var seen ivg.Metadata
 		err := decode.Decode(nil, in, func(m *ivg.Metadata) { seen = *m }, decode.WithColorAt(j.Param%64, color.Gray{uint8(j.Param)}))
 		return hash([]byte(fmt.Sprint(seen, err)))
+	case "zerorend":
+		// a Renderer whose first calls come before any Reset (the default palette is implied, as
+		// for a zero-value Encoder), then Reset with a custom palette for a second graphic
+		img := image.NewRGBA(image.Rect(0, 0, 24, 20))
+		z := vec.NewRasterizer(img)
+		var r render.Renderer
+		r.SetRasterizer(z, img.Bounds())
+		r.SetCReg(0, false, ivg.PaletteIndexColor(uint8(j.Param)))
+		r.SetCReg(1, false, ivg.BlendColor(uint8(j.Param), 0x80|uint8(j.Param%64), 0x64))
+		r.StartPath(1, -20, -20)
+		r.AbsLineTo(20, float32(j.Param%30))
+		r.AbsLineTo(-5, 25)
+		r.ClosePathEndPath()
+		first := append([]byte{}, img.Pix...)
+		r.Reset(ivg.ViewBox{MinX: -24, MinY: -24, MaxX: 24, MaxY: 24}, sharedValidPalette)
+		r.SetCReg(0, false, ivg.PaletteIndexColor(uint8(j.Param+1)))
+		r.StartPath(0, -20, -20)
+		r.AbsLineTo(20, float32(j.Param%30))
+		r.AbsLineTo(-5, 25)
+		r.ClosePathEndPath()
+		return hash(first, img.Pix)
 	case "zeroenc":
 		// a zero-value Encoder, never Reset (the default metadata is implied)
 		var e encode.Encoder
@@ -323,6 +344,9 @@ func runJob(w *worker, j Job, inputs [][]byte) uint64 {
 		opts := []decode.DecodeOption{decode.WithPalette(sharedPalette), decode.WithColorAt(j.Param%64, color.NRGBA{0xff, 0, 0, 0x80})}
 		if j.Param%2 == 0 {
 			opts = sharedOptions // option values built once (a theme) and used by every goroutine
+			if j.Param%4 == 2 {
+				opts = sharedOptions[:2] // ... or only its first entries (a sub-slice with spare capacity)
+			}
 		}
 		err := decode.Decode(rec, in, opts...)
 		p := [64]color.RGBA{}
